@@ -148,6 +148,19 @@ class Ctx:
             raise AnchorMissing("ADT %s not found" % path)
         return self.adts[path]
 
+    def run_rules(self, rule_fns):
+        """Runs each rule; a rule that cannot find its anchor is recorded as undecided instead of hiding the
+        verdicts of the other rules."""
+        out = []
+        for fn in rule_fns:
+            try:
+                out.append(fn(self))
+            except AnchorMissing as e:
+                r = RuleResult(fn.__name__.replace("rule_", "").upper(), "undecided: anchor missing")
+                r.anchor_missing = str(e)
+                out.append(r)
+        return out
+
     def stats(self):
         nb = sum(1 for f in self.facts["fns"] if "mir" in f)
         nc = 0
@@ -184,6 +197,7 @@ def main(argv=None):
     ap.add_argument("--tier", default=os.environ.get("VERIF_TIER", "quick"), choices=["quick", "thorough"])
     ap.add_argument("--replay", default=None)
     ap.add_argument("--no-evidence", action="store_true")
+    ap.add_argument("--no-replay-files", action="store_true")
     args = ap.parse_args(argv)
     prop = args.property
     t0 = time.time()
@@ -202,8 +216,6 @@ def main(argv=None):
                 r.config = cfg
             all_results.append((cfg, results))
         extra = {}
-        if args.tier == "thorough" and hasattr(mod, "thorough_extra"):
-            extra = mod.thorough_extra() or {}
     except factsmod.BuildError as e:
         print("BUILD-FAILED property=%s: %s" % (prop, str(e)[-3000:]))
         return 2
@@ -216,6 +228,7 @@ def main(argv=None):
         print("CHECK-ERROR property=%s" % prop)
         return 2
 
+    undecided = [(r.rule, r.anchor_missing) for _, rs in all_results for r in rs if getattr(r, "anchor_missing", None)]
     known, fixed = load_known()
     # merge findings over configurations by key
     findings = {}
@@ -239,16 +252,23 @@ def main(argv=None):
     for f, e in known_hits:
         print("KNOWN-FINDING: property=%s %s [%s]" % (prop, e.get("what", f.message), f.key))
     os.makedirs(os.path.join(EVIDENCE_DIR, "replay"), exist_ok=True)
+    if replay_filter is None and not args.no_replay_files:
+        for fn_ in os.listdir(os.path.join(EVIDENCE_DIR, "replay")):
+            if fn_.startswith(prop + "-"):
+                os.remove(os.path.join(EVIDENCE_DIR, "replay", fn_))
     for i, f in enumerate(violations):
         rp = os.path.join(EVIDENCE_DIR, "replay", "%s-%d.json" % (prop, i))
-        with open(rp, "w") as fh:
-            json.dump(dict(f.to_json(), property=prop), fh, indent=1)
+        if not args.no_replay_files:
+            with open(rp, "w") as fh:
+                json.dump(dict(f.to_json(), property=prop), fh, indent=1)
         print("  %s %s: %s\n    at %s\n    site: %s" % (f.rule, f.fn, f.message,
               mir.span_str(f.span) if isinstance(f.span, list) else f.span, f.site))
         if f.witness:
             print("    witness: %s" % (f.witness,))
         print("VIOLATION property=%s replay=%s" % (prop, rp))
 
+    if args.tier == "thorough" and not violations and not undecided and replay_filter is None and not os.environ.get("GL_NO_SELFTEST"):
+        extra = run_selftest(prop)
     wall = time.time() - t0
     if not args.no_evidence and replay_filter is None:
         write_evidence(prop, args.tier, seed, mod, all_results, stats, violations, known_hits, wall, extract_s,
@@ -259,7 +279,40 @@ def main(argv=None):
     print("%s %s: %d rule runs, %d obligations, %d discharged, %d known findings, %d violations (%.1fs)"
           % (prop, args.tier, sum(len(rs) for _, rs in all_results), tot_o, tot_d, len(known_hits),
              len(violations), wall))
-    return 1 if violations else 0
+    for rule, why in undecided:
+        print("ANCHOR-MISSING property=%s rule=%s: %s" % (prop, rule, why))
+    if violations:
+        return 1
+    if undecided:
+        print("(rule(s) above cannot decide on this tree; the check fails closed without a verdict)")
+        return 2
+    return 0
+
+
+def run_selftest(prop):
+    """Checker self-validation (thorough tier, informational): the property's mutants are applied to scratch copies of
+    the current tree; each must make the check fire (or stay quiet) as recorded in its header."""
+    import subprocess
+    try:
+        r = subprocess.run([sys.executable, os.path.join(VERIF, "selftest", "run.py"), "--prop", prop, "--json", "-j", "12"],
+                           cwd=VERIF, stdout=subprocess.PIPE, stderr=subprocess.PIPE, text=True, timeout=1500,
+                           env=dict(os.environ, GL_NO_SELFTEST="1"))
+        results = json.loads(r.stdout)
+    except Exception as e:  # informational only
+        return {"selftest_error": str(e)[:300]}
+    fire = [x for x in results if x.get("expect", "").startswith("fire")]
+    quiet = [x for x in results if x.get("expect", "") == "quiet"]
+    summary = {
+        "mutants_total": len(fire), "mutants_fired": sum(x["status"] == "ok" for x in fire),
+        "quiet_variants_total": len(quiet), "quiet_variants_quiet": sum(x["status"] == "ok" for x in quiet),
+        "not_as_expected": [{"name": x["name"], "status": x["status"]} for x in results if x["status"] not in ("ok",)],
+        "mutants": [{"name": x["name"], "expect": x.get("expect"), "status": x["status"], "rules_fired": x.get("rules_fired")} for x in results],
+    }
+    print("selftest %s: %d/%d must-fire mutants fired, %d/%d quiet variants quiet" % (
+        prop, summary["mutants_fired"], summary["mutants_total"], summary["quiet_variants_quiet"], summary["quiet_variants_total"]))
+    for x in summary["not_as_expected"]:
+        print("  selftest note: %s -> %s" % (x["name"], x["status"]))
+    return summary
 
 
 def write_evidence(prop, tier, seed, mod, all_results, stats, violations, known_hits, wall, extract_s, extra):
